@@ -256,6 +256,7 @@ func runC09(r *Run) int {
 	if r.Counter("valid_vector_not_decoded") > 0 {
 		r.Inconclusive("%d valid vectors were not decoded (acceptance is judged by C07/C08)", r.Counter("valid_vector_not_decoded"))
 	}
+	r.ProcsChildren(6000, 1, 3, 7, 14)
 	return r.Finish("valid-side corpus: every (version, base combination) x level x seeded optional subsets (v3), each decoded at every admitting decoder in canonical order, a random order, and a random order with every X flipped between spelled and omitted; all 73,629 v2 base/temporal vectors without and with seeded environmental groups at every admitting decoder; oracle = the harness's own assignment metric code -> library constant by name, and equality of the full observation (fields, scores, severities, encodings of all views) across spellings; distinct non-trivial = distinct corpus vectors",
 		false, nt.Load(), 100000, 50000, TrustedBase)
 }
@@ -390,6 +391,7 @@ func runC10(r *Run) int {
 	if r.Counter("valid_vector_not_decoded") > 0 {
 		r.Inconclusive("%d valid vectors were not decoded (acceptance is judged by C07/C08)", r.Counter("valid_vector_not_decoded"))
 	}
+	r.ProcsChildren(6000, 1, 3, 7, 14)
 	return r.Finish("valid-side corpus (see C09) at every admitting decoder, v3 in canonical and random token orders with optional metrics written, spelled X, or omitted: Encode() error nil and text == the harness's canonical string (v3: prefix, specification order, every metric of the decoder's level spelled, X when undefined; v2: byte-identical to the input); String()==Encode(); Decode(Encode(x)) succeeds at the same level with identical fields and full observation; additionally every string of the token-edit and double-edit workloads that the library itself accepts must round-trip the same way (v2: byte-identical); distinct non-trivial = distinct corpus vectors",
 		false, nt.Load(), 100000, 50000, TrustedBase)
 }
@@ -547,6 +549,7 @@ func runC14(r *Run) int {
 	if r.Counter("valid_vector_not_decoded") > 0 || r.Counter("projection_not_decoded") > 0 {
 		r.Inconclusive("%d valid vectors / %d projections were not decoded (acceptance is judged by C07/C08)", r.Counter("valid_vector_not_decoded"), r.Counter("projection_not_decoded"))
 	}
+	r.ProcsChildren(6000, 1, 3, 7, 14)
 	return r.Finish("every accepted temporal / environmental vector of the valid-side corpus (v3: all base combinations x seeded optional subsets x random orders; v2: all 73,629 base/temporal vectors without and with seeded environmental groups) at every admitting higher-level decoder: BaseMetrics(), TemporalMetrics(), TemporalMetrics().BaseMetrics() and the exported embedded objects are compared (score, severity, validity, encoding, string) with an independent lower-level Decode of the harness's projection of the token list; distinct non-trivial = distinct corpus vectors of level >= temporal",
 		false, nt.Load(), 200000, 50000, TrustedBase)
 }
